@@ -110,3 +110,46 @@ TEXTS["C12"] = {"text": "Machine-checked proof (Coq) over the operational model 
 TEXTS["C13"] = {"text": "Machine-checked proof (Coq), same model as C12: Count <= NumChunks*(MaxNumItems/NumChunks) <= MaxNumItems; Count = |Keys| = |ForEachItem|, Get/Has/Keys agree, no duplicate key; NumBytes = sum of the sizes given at the insertion of each resident (provenance proved); CountImmune = number of accepted immune keys not since removed (a function of the history alone); HasOrAdd reports has iff present before and added iff it became present; with one chunk the resident sequence, the immune set and all outputs equal those of a short FIFO-queue spec evicting batches of oldest non-immune entries; Remove withdraws current and future immunity. Tied to the code by differential runs on all observers after every operation and by monitors incl. a harness-side FIFO reference queue.",
   "note": STD_NOTE,
   "technique": "Coq proof (invariants + refinement to a FIFO queue spec with one chunk) + differential correspondence check + text-derived monitors"}
+
+POOL_NOTE = STD_NOTE + " container/heap is modelled as the extreme element of a strict total order (proved total/transitive/irreflexive on distinct hashes)."
+TEXTS["C03"] = {
+    "text": "Machine-checked (Coq): more_valuable (PPU desc, gas limit desc, hash asc) is a strict total order on distinct hashes and the heap's pop is its unique maximum, "
+            "so the deterministic selection is a function of pool contents, session and limits; PPU = floor(fee/gasLimit) for every fee whose quotient fits a uint64 "
+            "(saturation beyond); permuting the bunches (sender iteration order, chunk count) does not change the result; lowering maxNum, gasRequested or the step budget "
+            "(time-out) yields a prefix; selection leaves the pool unchanged. Tied to the code by EXACT comparison of selected hash sequences and gas on generated and "
+            "exhaustively enumerated pools, and by monitors (independent Go reference of the documented merge, repeatability, prefix, reverse insertion order with another NumChunks).",
+    "note": POOL_NOTE,
+    "technique": "Coq proof (strict total order, unique extreme element, lock-step simulation for permutation and prefix) + exact differential correspondence + Go reference monitors",
+}
+TEXTS["C04"] = {
+    "text": "Machine-checked (Coq) over the model transcribed from txCache.go/txListForSender.go/txListBySenderMap.go/txByHashMap.go: for every history of AddTx/RemoveTxByHash/Clear, "
+            "every per-sender limit, every sender list is strictly ordered (nonce asc, gas price desc, hash asc), no hash twice; AddTx adds exactly when the hash is not pooled and the "
+            "sender's list becomes the sorted insertion minus its last element when over a limit; RemoveTxByHash removes exactly the sender's transactions with lower or equal nonce; "
+            "lookups by hash agree with the lists. 'Dropped until it fits' holds when one drop suffices (C04_limit_drop_partial) and is refuted in general (F4, recorded known finding). "
+            "Tied to the code by exact comparison of per-sender hash sequences after every operation and by reference-rule monitors.",
+    "note": POOL_NOTE + " Known finding F4 (applySizeConstraints drops at most one transaction) is matched by the model's finding event and the monitor signature.",
+    "technique": "Coq proof (sorted-insert lemma, invariant by induction over histories) + exact differential correspondence + reference-rule monitors",
+}
+TEXTS["C05"] = {
+    "text": "Machine-checked (Coq): an invariant relating the hash index, the sender map and the three separately maintained counters is preserved by AddTx (with or without eviction, "
+            "any thresholds and batch size), RemoveTxByHash, SelectTransactions and Clear, for every history whose transactions' hashes determine their content; corollaries: same set, "
+            "CountTx/Len/NumBytes/CountSenders exact, emptied pool reports zeros, no orphan transaction. The eviction proof covers same-nonce alternatives and multi-pass eviction "
+            "(cursor snapshot invariants). Tied to the code by differential runs and monitors after every operation.",
+    "note": POOL_NOTE,
+    "technique": "Coq proof (global invariant by induction over all histories incl. the eviction loop) + differential correspondence + invariant monitors",
+}
+TEXTS["C06"] = {
+    "text": "Machine-checked (Coq): per-sender count limit after every history; per-sender byte limit whenever one drop suffices (partial; the unrestricted clause is refuted by a witness = "
+            "finding F4); with eviction enabled the pool exceeds the thresholds by at most the transaction just added, and doEviction always ends within thresholds (loop fuel proved "
+            "sufficient, cursors proved exhaustive); with eviction disabled an insertion touches no other sender. Tied to the code by differential runs and bound monitors after every AddTx.",
+    "note": POOL_NOTE + " Sizes >= 0 and thresholds >= 0 are hypotheses. F4 is a recorded known finding.",
+    "technique": "Coq proof (invariants + termination/exhaustiveness of the eviction loop) + differential correspondence + bound monitors",
+}
+TEXTS["C07"] = {
+    "text": "Machine-checked (Coq): eviction is idle within thresholds, stops at the first pass boundary within thresholds and never earlier; each take is the least valuable head under a "
+            "strict total order; a taken transaction takes its sender's same-or-higher-nonce transactions with it; every sender keeps a prefix of its list cut at a nonce boundary; evicted "
+            "transactions vanish from both indexes and the invariant holds afterwards. Tied to the code by EXACT comparison of all pool views after every eviction-triggering AddTx and by an "
+            "independent Go reference of the documented procedure.",
+    "note": POOL_NOTE,
+    "technique": "Coq proof (cursor/snapshot invariants, order lemmas) + exact differential correspondence + Go reference monitors",
+}
